@@ -529,9 +529,12 @@ def signature(w, req, exp, obs):
 
 
 def compare(exp, obs):
-    """None or a text saying what differs (expected = model, observed = real application)"""
+    """None or a text saying what differs (expected = model, observed = real application).
+
+    Which error a refused request is answered with is not part of the property: when both sides refuse with an
+    error and neither has effects, a different status / reason is returned as a soft difference ('note: ...')."""
     diffs = []
-    for k in ('cls', 'status', 'reason', 'ups', 'wrs'):
+    for k in ('cls', 'ups', 'wrs'):
         if exp[k] != obs[k]:
             diffs.append('%s: model %s, real %s' % (k, exp[k], obs[k]))
     if obs.get('unknown_upstream'):
@@ -539,7 +542,21 @@ def compare(exp, obs):
     if obs['nups'] != len(obs['ups']) or obs['nwrs'] != len(obs['wrs']):
         diffs.append('repeated effects: %d upstream requests for %d blocks, %d writes for %d tiles' % (
             obs['nups'], len(obs['ups']), obs['nwrs'], len(obs['wrs'])))
+    code = ['%s: model %s, real %s' % (k, exp[k], obs[k]) for k in ('status', 'reason') if exp[k] != obs[k]]
+    if code:
+        if not diffs and exp['cls'] == 'error' and not exp['ups'] and not exp['wrs']:
+            return 'note: ' + '; '.join(code)
+        diffs = code + diffs
     return '; '.join(diffs) or None
+
+
+def soft_note(ctx, w, req, diff):
+    """a refused request is refused with another error than the model says: recorded, not a violation"""
+    key = '%s %s %s' % (w.name, req.get('f', 'wms-map'), diff)
+    ctx._c16_soft = getattr(ctx, '_c16_soft', {})
+    ctx._c16_soft[key] = ctx._c16_soft.get(key, 0) + 1
+    if ctx._c16_soft[key] == 1 and len(ctx._c16_soft) <= 12:
+        ctx.log('note (not a violation): %s: %s -> refused as the model says, but %s' % (w.name, describe(req), diff[6:]))
 
 
 def run_table(ctx, w, app, cases, label='table'):
@@ -552,6 +569,9 @@ def run_table(ctx, w, app, cases, label='table'):
         obs = app.request(req)
         dirty = bool(obs['wrs'])
         diff = compare(exp, obs)
+        if diff and diff.startswith('note: '):
+            soft_note(ctx, w, req, diff)
+            diff = None
         if diff is None and (dirty or exp['wrs']):
             listing = sorted(app.cached())
             if listing != exp['wrs']:
@@ -603,6 +623,9 @@ def replay_behaviour(ctx, w, app, beh, label):
         elif act == 'Respond':
             exp = state_expectation(st)
             diff = compare(exp, obs)
+            if diff and diff.startswith('note: '):
+                soft_note(ctx, w, sent[-1], diff)
+                diff = None
             if diff is None:
                 listing = sorted(app.cached())
                 model = sorted(tuple(a) for a in st['cached'])
@@ -962,6 +985,8 @@ def run(ctx):
         'as an error answer: the property constrains side effects and refusal, not the error code',
         'WMTS on sqrt2 grids (level doubling vs. advertised matrices) belongs to C02 and is not configured here',
     ]
+    for key, n in sorted(getattr(ctx, '_c16_soft', {}).items())[:20]:
+        ctx.notes.append('refused with another error than the model says (%d cases): %s' % (n, key))
     return ctx.finish('model_checking',
                       'TLC: TileRefuse exhaustively per world for all single requests of the address window and all pairs of a '
                       'smaller window; distinct = distinct (world, request) cases of the TLC table executed on the real '
